@@ -406,6 +406,14 @@ func (c *FnCtx) havocDesignator(st *State, m string, sc *SpecCtx, pre *State) {
 		c.heapSet(st, "G:"+m, c.freshSort("g_"+m, g.Sort))
 		return
 	}
+	if strings.HasPrefix(m, "allmaps(") && strings.HasSuffix(m, ")") {
+		// every map object of the static type of the expression
+		mt := c.allmapsType(m, sc, pre)
+		dom, val, dk, vk := c.mapArrs(st, mt)
+		c.heapSet(st, dk, c.freshSort("mdall", dom.Sort))
+		c.heapSet(st, vk, c.freshSort("mvall", val.Sort))
+		return
+	}
 	if strings.HasSuffix(m, "[*]") {
 		// contents of one map object
 		e, err := parseSpec(strings.TrimSuffix(m, "[*]"))
